@@ -139,6 +139,7 @@ type FuncSpec struct {
 	TrustedEnsures []*Clause
 	Modifies   []ModItem
 	Preserves  []string // array-name substrings exempt from wildcard havoc
+	ModTags    []string // extra property tags of the frame obligations
 	HasMod     bool
 	Allocates  bool
 	Event      bool
@@ -974,6 +975,9 @@ func parseSpecFile(path string, pkg string) (sf *SpecFile, err error) {
 			curL.Updates = append(curL.Updates, gu)
 		case "modifies":
 			cur.HasMod = true
+			mtags, mbody := parseTags(rc.text)
+			cur.ModTags = append(cur.ModTags, mtags...)
+			rc.text = mbody
 			if strings.TrimSpace(rc.text) == "nothing" {
 				break
 			}
